@@ -49,7 +49,7 @@ $(cat $d/avoid.txt)
 * \`meta.json\` — \`{"property": "$p", "variant": "X", "summary": "<what was changed, 2-4 sentences>", "breaks": "<which clause of the property fails and how>",
   "needs": "<what it needs in order to manifest>", "files": ["pkg/..."], "demo_cmd": "go test -count=1 ./verifdemo/"}\`
 
-Work on one variant at a time: make the change, run the suite, write and run the demo (with the change: FAIL), \`git stash\`/\`git checkout -- pkg\` to
+Work on one variant at a time: make the change, run the suite, write and run the demo (with the change: FAIL), save \`git diff\` to a file and \`git checkout -- pkg\` (NEVER use \`git stash\`: the stash is shared with other worktrees) to
 confirm the demo PASSES without it, save the three files, then reset the worktree (\`git checkout -- pkg && rm -rf verifdemo\`) before the second variant.
 Read the code the anchors point at first. If the existing suite fails with your change, change your approach rather than the tests.
 When done, reply with a 5-line summary per variant (what, needs, demo result with/without, suite result).
